@@ -1465,6 +1465,7 @@ func (d *Data) storeAndUpdate(ctx *datastore.VersionedCtx, keyStr string, newDat
 	dvid.Infof("neuronjson %s put by user %q, conditionals %v, replace %t:\nOrig: %s\n Rcv: %s\n New: %s\n",
 		d.DataName(), ctx.User, conditionals, replace, origJSON, rcvJSON, newJSON)
 
+	dvid.VerifPoint("neuronjson.storeAndUpdate", bodyid)
 	// write result
 	mdb, found := d.getMemDBbyVersion(ctx.VersionID())
 	if found {
